@@ -1025,3 +1025,123 @@ func c10r7(rc *core.RC) {
 		rc.Unknown("decoder/decode-time-methods", token.NoPos, "found %d decode-time methods", n)
 	}
 }
+
+// ---- C10.R8 a pooled context owns what its pointer fields point to ----
+
+// isFreshAlloc: &T{…} or new(T).
+func isFreshAlloc(info *types.Info, e ast.Expr) bool {
+	e = core.Unparen(e)
+	if u, ok := e.(*ast.UnaryExpr); ok && u.Op == token.AND {
+		_, isLit := core.Unparen(u.X).(*ast.CompositeLit)
+		return isLit
+	}
+	if c, ok := e.(*ast.CallExpr); ok && core.IsBuiltin(info, c, "new") {
+		return true
+	}
+	return false
+}
+
+// The run-time contexts of encoder and decoder are recycled through sync.Pools, and every entry point resets the
+// Option its context points to (`*ctx.Option = Option{}`) and fills it in. That is only private to the call when
+// no two contexts point to the same Option: a pointer field of a pooled context must only ever receive a fresh
+// allocation. A context built as a composite literal may borrow a pointer when it is handed straight to a Decode
+// call and never reaches a pool.
+func c10r8(rc *core.RC) {
+	p := rc.P
+	n := 0
+	for _, short := range []string{"json", "decoder", "encoder", "vm", "vm_indent", "vm_color", "vm_color_indent"} {
+		for _, fd := range p.Funcs(short) {
+			if fd.Body == nil {
+				continue
+			}
+			info := p.Info(fd)
+			fn := p.FuncName(fd)
+			k := 0
+			parents := map[ast.Node]ast.Node{}
+			var stack []ast.Node
+			ast.Inspect(fd.Body, func(m ast.Node) bool {
+				if m == nil {
+					stack = stack[:len(stack)-1]
+					return true
+				}
+				if len(stack) > 0 {
+					parents[m] = stack[len(stack)-1]
+				}
+				stack = append(stack, m)
+				return true
+			})
+			ast.Inspect(fd.Body, func(m ast.Node) bool {
+				switch x := m.(type) {
+				case *ast.AssignStmt:
+					for i, l := range x.Lhs {
+						sel, ok := core.Unparen(l).(*ast.SelectorExpr)
+						if !ok {
+							continue
+						}
+						owner := pooledOwner(info, sel)
+						if !strings.HasSuffix(owner, "RuntimeContext") {
+							continue
+						}
+						f := core.FieldOf(info, sel)
+						if f == nil {
+							continue
+						}
+						if _, isPtr := f.Type().Underlying().(*types.Pointer); !isPtr || i >= len(x.Rhs) || len(x.Lhs) != len(x.Rhs) {
+							continue
+						}
+						n++
+						k++
+						rc.Touch(fn)
+						key := fmt.Sprintf("%s/%s.%s#%d receives-fresh-allocation", fn, owner, f.Name(), k)
+						rc.Check(isFreshAlloc(info, x.Rhs[i]), key, x.Pos(), "the pointer field %s.%s of a context that is recycled through a sync.Pool receives %s: two pooled contexts that point to one %s make every entry point reset and fill in the options of another, concurrent call", owner, f.Name(), core.Src(p.Fset, x.Rhs[i]), f.Name())
+					}
+				case *ast.CompositeLit:
+					tv, has := info.Types[x]
+					if !has {
+						return true
+					}
+					owner := strings.TrimPrefix(types.Unalias(tv.Type).String(), core.ModPath+"/internal/")
+					if !pooledTypes[owner] || !strings.HasSuffix(owner, "RuntimeContext") {
+						return true
+					}
+					for _, el := range x.Elts {
+						kv, ok := el.(*ast.KeyValueExpr)
+						if !ok {
+							continue
+						}
+						f, _ := core.ObjOf(info, kv.Key).(*types.Var)
+						if f == nil {
+							continue
+						}
+						if _, isPtr := f.Type().Underlying().(*types.Pointer); !isPtr {
+							continue
+						}
+						n++
+						k++
+						rc.Touch(fn)
+						key := fmt.Sprintf("%s/%s.%s#%d receives-fresh-allocation", fn, owner, f.Name(), k)
+						if isFreshAlloc(info, kv.Value) {
+							rc.OK(key, kv.Pos(), "fresh allocation")
+							continue
+						}
+						// borrowed: the literal's address must be a direct argument of a Decode call
+						par := parents[x]
+						if u, isAddr := par.(*ast.UnaryExpr); isAddr && u.Op == token.AND {
+							if c, isCall := parents[u].(*ast.CallExpr); isCall {
+								if sel, isSel := c.Fun.(*ast.SelectorExpr); isSel && strings.HasPrefix(sel.Sel.Name, "Decode") {
+									rc.OK(key, kv.Pos(), "a borrowed %s in a context literal that is handed straight to %s and never reaches a pool", f.Name(), sel.Sel.Name)
+									continue
+								}
+							}
+						}
+						rc.Bad(key, kv.Pos(), "a context literal borrows %s for its field %s and is not handed straight to a Decode call: if it reaches a pool, two contexts share one %s", core.Src(p.Fset, kv.Value), f.Name(), f.Name())
+					}
+				}
+				return true
+			})
+		}
+	}
+	if n < 2 {
+		rc.Unknown("module/context-pointer-fields", token.NoPos, "found %d stores to pointer fields of the pooled contexts inside functions (confirmed: the ,string stream context and the key encoder's scratch context; the pool constructors are package-level initialisers)", n)
+	}
+}
